@@ -10,6 +10,7 @@ from __future__ import annotations
 import kcorr
 import koracles
 from common import Finding
+from common import unhexs as common_unhex
 from stepup.core.enums import StepState
 
 PID = "C12"
@@ -41,6 +42,21 @@ class Observer:
                                 f"after '{kcorr.decode_line(line)[:100]}': {b}",
                                 {"violation": b, "requests": [kcorr.decode_line(x) for x in run.lines][-15:],
                                  "protocol_lines": list(run.lines)}))
+        if op == "define" and ans.startswith("ok"):
+            # the stored requirement of a step is the one of its latest accepted definition
+            t = line.split(" ")
+            cmd, wd = common_unhex(t[3]), common_unhex(t[4])
+            label = cmd if wd == "." else f"{cmd}  # wd={wd}"
+            declared = {} if t[12] == "." else {common_unhex(a): int(b) for a, b in (e.split("=") for e in t[12].split(","))}
+            i = next((j for j, n in sn.nodes.items() if n[0] == "step" and n[1] == label), None)
+            ctx.stats.count("oracle-declared-resources-checked")
+            if i is not None and sn.resources.get(i, {}) != declared:
+                ctx.finding(Finding(PID, "declared-resources-lost",
+                                    f"'{label}' was defined with resources {declared}, the stored requirement is "
+                                    f"{sn.resources.get(i, {})}",
+                                    {"step": label, "declared": declared, "stored": sn.resources.get(i, {}),
+                                     "requests": [kcorr.decode_line(x) for x in run.lines][-15:],
+                                     "protocol_lines": list(run.lines)}))
         if op == "pop" and ":run:" in ans:
             label = bytes.fromhex(line.split(" ")[2].split(":")[1]).decode()
             i = next(j for j, n in sn.nodes.items() if n[0] == "step" and n[1] == label)
